@@ -248,11 +248,24 @@ func H_l2_alias() {
 		for i := range vals {
 			copies[i] = append([]byte{}, vals[i]...)
 		}
+		vMonitor(vals)
 		st, err := NewSlimTrie(encode.Bytes{Size: 2}, c.keys, vals, vOptCase(c.optc))
 		vAssert(err == nil, "build-ok")
 		if err != nil {
 			vAssume(false)
 		}
+		// the caller's value slice (the slice of slices and every element) is as it was
+		wr := vWrites()
+		vUnmonitor(vals)
+		same := len(vals) == len(copies)
+		for i := range copies {
+			same = same && vals[i] != nil && len(vals[i]) == len(copies[i])
+			if same {
+				same = vAnd(same, vBytesEq(vals[i], copies[i]))
+			}
+		}
+		vAssert(same, "C20.values-unchanged")
+		vAssert(wr == 0, "C20.values-not-written")
 		for i := range vals {
 			vAssert(!vReachable(st, vals[i]), "C20.values-not-retained")
 		}
